@@ -683,6 +683,34 @@ def r4_persistence(ctx):
             f"data.get({k},default)", f"self.load().get({k},default)") and \
         R.get("default") == f"DEFAULTS[{k}]" and R.get("data", "self.load()")\
         == "self.load()"
+    if not ok and len(rets) == 1 and isinstance(rets[0].value, ast.Name):
+        # the same through `if key in data: val = data[key] else: val =
+        # default` / a conditional expression (all reaching values judged)
+        from ..symres import Resolver as _Rg
+        Rg = _Rg(gi)
+        vals = Rg.reaching_values(rets[0].value)
+        if vals:
+            txt = set()
+            for v_ in vals:
+                if isinstance(v_, ast.IfExp) and Rg.text(v_.test).replace(
+                        " ", "") == f"{k}inself.load()":
+                    txt |= {Rg.text(v_.body), Rg.text(v_.orelse)}
+                else:
+                    txt.add(Rg.text(v_))
+            txt = {t.replace(" ", "") for t in txt}
+            ok = txt in ({f"self.load()[{k}]", f"DEFAULTS[{k}]"},
+                         {f"self.load().get({k},DEFAULTS[{k}])"})
+            if ok and len(txt) == 2:
+                # the stored value only under `key in data`
+                for st in walk_no_nested(gi, False):
+                    if isinstance(st, ast.Assign) and Rg.text(
+                            st.value).replace(" ", "") == \
+                            f"self.load()[{k}]" and isinstance(
+                                st.targets[0], ast.Name) and \
+                            st.targets[0].id == rets[0].value.id:
+                        ok = any(a.pol and Rg.text(a.node).replace(
+                            " ", "") == f"{k}inself.load()"
+                            for a in conditions_at(st))
     ctx.check(ok, gi, "__getitem__ returns the stored value or the default",
               f"Profile.__getitem__ does not return the loaded value with "
               f"the default as fallback: {R}")
